@@ -222,6 +222,10 @@ func Quiesce() { time.Sleep(60 * time.Millisecond) }
 // AdvanceTime fires the oldest pending timer (engine); natively it sleeps d.
 func AdvanceTime(d time.Duration) { time.Sleep(d) }
 
+// GoLow starts f as a goroutine that the engine runs only at an explored pre-emption point or when
+// nothing else can run (natively: an ordinary goroutine).
+func GoLow(f func()) { go f() }
+
 // Yield is a scheduling point.
 func Yield() {}
 
